@@ -188,9 +188,17 @@ def gen_case(r, maxports=4, globs=True, allow_collisions=True):
                 schema[port] = {'*': {'x': {'_default': 7}, 'y': {'_default': 8}}}
                 topo[port] = list(rel_path(ploc, G))
             else:
-                # glob whose children are re-mapped by a dictionary sub-topology
+                # glob whose children are re-mapped by a dictionary sub-topology; the path to the glob
+                # store is given at the port level, inside the '*' dictionary, or split over both
                 schema[port] = {'*': {'x': {'_default': 7}, 'y': {'_default': 8}}}
-                topo[port] = {'_path': list(rel_path(ploc, G)), '*': {'x': ['bd', 'x'], 'y': ['y']}}
+                where = r.choice(['port', 'star', 'both'])
+                full = list(rel_path(ploc, G))
+                if where == 'port' or (where == 'both' and len(full) < 2):
+                    topo[port] = {'_path': full, '*': {'x': ['bd', 'x'], 'y': ['y']}}
+                elif where == 'star':
+                    topo[port] = {'*': {'_path': full, 'x': ['bd', 'x'], 'y': ['y']}}
+                else:
+                    topo[port] = {'_path': full[:-1], '*': {'_path': full[-1:], 'x': ['bd', 'x'], 'y': ['y']}}
         kinds.append(kind)
     if not schema:
         tgt = leaf_nodes[0]
